@@ -20,6 +20,8 @@
 //! behind.  Prints `IN <the recorded samples as a stats case> EXP <counts of the inputs each
 //! sample was given> TAL <allocator tally rows of each sample's timed section> OUT <stats line>`: the model is driven by the recording.
 //!
+//! Mode `e2e`: the real `Divan::main` path over several thread counts under the virtual clock (see `e2e`).
+//!
 //! Mode `periter`: `<sample_size> <c0,c1,..>`: runs a real `Bencher` with
 //! `with_inputs` + `input_counter` over the given per-input counts (one sample)
 //! and prints the counter value stored for that sample.
@@ -136,7 +138,7 @@ struct In {
 /// What the benchmarked function does with the allocator for input value `n` under `mode`:
 /// `0` nothing, `a` alloc+free, `o` alloc only (freed with the output, after the timed section),
 /// `f` free only (block from the generator), `s` shrink only, `g` grow only, `m` one of these per
-/// input, chosen by `n % 6`.
+/// input, chosen by `n % 6`; `l` (handled in `run`): alloc+free in the first 1..3 calls of the run only.
 fn behaviour(mode: char, n: usize) -> char {
     match mode {
         '1' => 'a',
@@ -219,8 +221,19 @@ fn run(line: &str) -> String {
         In { n, buf }
     };
     // The output is dropped after the timed section.
+    // `l` (lazy initialisation): only the first `lazy_k` calls of the whole run allocate (and free).
+    let lazy_k = 1 + seed % 3;
+    let calls = AtomicU64::new(0);
+    let calls_ref = &calls;
     let work = move |mut input: In| -> (usize, Option<Buf>) {
         let n = input.n;
+        let call = calls_ref.fetch_add(1, Ordering::Relaxed);
+        if mode == 'l' {
+            if call < lazy_k {
+                drop(divan::black_box(Buf::new(block_size(n))));
+            }
+            return (n, None);
+        }
         match behaviour(mode, n) {
             'a' => {
                 drop(divan::black_box(Buf::new(block_size(n))));
@@ -329,6 +342,11 @@ fn run(line: &str) -> String {
         })
         .collect();
     // The tally rows each recorded sample's timed section must have produced (sum over its inputs).
+    let total_calls = calls.load(Ordering::Relaxed);
+    if mode == 'l' {
+        assert!(threads == 1, "lazy mode: one thread");
+        assert!(total_calls >= n * s);
+    }
     let tal = if n == 0 {
         "-".to_string()
     } else {
@@ -337,7 +355,13 @@ fn run(line: &str) -> String {
                 let mut rows = [0u64; 8];
                 for t in 0..s {
                     let v = if uniform { input_value(seed) } else { input_value(seed + j * s + t) };
-                    let r = rows_of(mode, v);
+                    let r = if mode == 'l' {
+                        // one thread: the recorded samples are the last n*s calls of the run
+                        let call = total_calls - (n - j) * s + t;
+                        if call < lazy_k { rows_of('a', v) } else { [0; 8] }
+                    } else {
+                        rows_of(mode, v)
+                    };
                     for q in 0..8 {
                         rows[q] += r[q];
                     }
@@ -428,11 +452,104 @@ fn periter(line: &str) -> String {
     }
 }
 
+/// Same functions as in src/e2e.rs (the child computes the clock advance of every call from them).
+fn e2e_mix(seed: u64, r: u64, t: u64, o: u64) -> u64 {
+    let mut z = seed
+        .wrapping_mul(0x9E3779B97F4A7C15)
+        .wrapping_add(r.wrapping_mul(0xBF58476D1CE4E5B9))
+        .wrapping_add(t.wrapping_mul(0x94D049BB133111EB))
+        .wrapping_add(o.wrapping_mul(0xD6E8FEB86659FD93));
+    z ^= z >> 29;
+    z = z.wrapping_mul(0xBF58476D1CE4E5B9);
+    z ^ (z >> 32)
+}
+fn e2e_ticks(seed: u64, r: u64, t: u64, o: u64) -> u64 {
+    let base = if r == 0 { 40_000 } else { 3_000 };
+    base + 1_000 * (e2e_mix(seed, r, t, o) % 7)
+}
+
+/// `<sample_count> <sample_size> <t1,t2,..> <counter 0|1> <seed>`: runs the real benchmark binary
+/// `hx-stats-e2e` through `Divan::main` (one `BenchContext` per thread count) and prints, per
+/// thread count, the samples that run recorded (known from the configuration) and the row the
+/// table shows: `R <T> IN <s> <durations> ROW fastest|slowest|median|mean|samples|iters ;; ..`.
+fn e2e(line: &str) -> String {
+    let t = hxlib::toks(line);
+    assert!(t.len() == 5, "e2e: 5 tokens");
+    let n: u64 = t[0].parse().unwrap();
+    let s: u64 = t[1].parse().unwrap();
+    // the runner sorts the requested thread counts and drops duplicates
+    let mut threads: Vec<u64> = t[2].split(',').map(|x| x.parse().unwrap()).collect();
+    threads.sort();
+    threads.dedup();
+    let seed: u64 = t[4].parse().unwrap();
+    let exe = std::env::current_exe().expect("exe").with_file_name("hx-stats-e2e");
+    let out = std::process::Command::new(exe)
+        .args(["--bench", "--sample-count", t[0], "--sample-size", t[1], "--threads", t[2]])
+        .args(["--timer", "tsc", "--color", "never"])
+        .env("HX_SEED", t[4])
+        .env("HX_COUNTER", t[3])
+        .output()
+        .expect("spawn hx-stats-e2e");
+    if !out.status.success() {
+        return format!("crash status={:?}", out.status.code());
+    }
+    let stdout = String::from_utf8_lossy(&out.stdout);
+    // rows: label (`job` or `t=N`) and the six cells
+    let mut rows: Vec<(String, Vec<String>)> = Vec::new();
+    for l in stdout.lines() {
+        if !l.contains('│') {
+            continue;
+        }
+        let cells: Vec<&str> = l.split('│').collect();
+        let first: Vec<&str> = cells[0]
+            .split(|c: char| c.is_whitespace() || "╰├─│".contains(c))
+            .filter(|x| !x.is_empty())
+            .collect();
+        if first.is_empty() {
+            continue;
+        }
+        let label = first[0].to_string();
+        let fastest = first[1..].join("_");
+        let mut v = vec![fastest];
+        v.extend(cells[1..].iter().map(|c| c.trim().replace(' ', "_")));
+        rows.push((label, v));
+    }
+    let mut parts = Vec::new();
+    for (r, &tc) in threads.iter().enumerate() {
+        let rounds = if n == 0 { 0 } else { (n + tc - 1) / tc };
+        let mut durs = Vec::new();
+        for rho in 0..rounds {
+            for tau in 0..tc {
+                let mut d = 1u64;
+                for o in rho * s..(rho + 1) * s {
+                    d += e2e_ticks(seed, r as u64, tau, o);
+                }
+                durs.push(d.to_string());
+            }
+        }
+        let label = if threads.len() > 1 { format!("t={tc}") } else { "job".to_string() };
+        let row = rows
+            .iter()
+            .find(|(l, c)| *l == label && c.len() == 6 && !c[0].is_empty())
+            .map(|(_, c)| c.join("|"))
+            .unwrap_or_else(|| "missing".to_string());
+        parts.push(format!(
+            "R {} IN {} {} ROW {}",
+            tc,
+            s,
+            if durs.is_empty() { "-".to_string() } else { durs.join(",") },
+            row
+        ));
+    }
+    parts.join(" ;; ")
+}
+
 fn dispatch(mode: &str, line: &str) -> String {
     match mode {
         "stats" | "stats_rel" => stats(line),
         "periter" | "periter_rel" => periter(line),
         "run" | "run_rel" => run(line),
+        "e2e" | "e2e_rel" => e2e(line),
         _ => panic!("unknown mode {mode}"),
     }
 }
